@@ -30,6 +30,8 @@ def main():
         emb.vrank = {v: i + 1 for i, v in enumerate(emb.vals)}
     import pickle
     leafcls, treecls = (SE, TS) if is_set else (BU, BT)
+    # a user subclass of the tree class (the usual way to give a tree its own node sizes) resolves like its base
+    subtreecls = type('Sub' + treecls.__name__, (treecls,), {})
     nk, nv = job['nkeys'], (1 if is_set else job['nvals'])
     links = job['links']
     A, B = leafcls(), leafcls()          # two distinct successor leaves
@@ -94,7 +96,7 @@ def main():
                 if sel and idx % sel[0] != sel[1]:
                     continue
                 for (xo, xc, xn) in links:
-                    for (target, wrap, name) in ((leafcls, False, 'leaf'), (treecls, True, 'tree')):
+                    for (target, wrap, name) in ((leafcls, False, 'leaf'), (treecls, True, 'tree'), (subtreecls, True, 'subtree')):
                         got = call(target, wrap, o, c, n, xo, xc, xn, idx)
                         count += 1
                         r = dict(o=o, c=c, n=n, xo=xo, xc=xc, xn=xn, forms=['leaf', 'leaf', 'leaf'], got=got)
